@@ -149,3 +149,7 @@ func vfTime() time.Time {
 	}
 	return time.Unix(0, 0).Add(time.Duration(v))
 }
+
+// vfClockMaxStep bounds the model clock's progress between two readings
+// (no effect natively: the real clock is used).
+func vfClockMaxStep(ns int64) {}
